@@ -548,7 +548,7 @@ def run(ctx: Ctx) -> None:
     ctx.rule('R08.3', 'deform rewrites stabilizers and both logical families identically with one name/kwargs', floor=2)
     ctx.rule('R08.4', 'a deformation is always applied to the undeformed operators', floor=1)
     ctx.rule('R08.5', 'deform resets every lazily cached attribute; no subclass hides a cache from it', floor=28)
-    ctx.rule('R08.6', 'noise-side deformation: p_new[P] = p_old[D(P)] with the code\'s table, snapshot reads', floor=3)
+    ctx.rule('R08.6', 'noise-side deformation: p_new[P] = p_old[D(P)] with the code\'s table, snapshot reads; cache keyed by full state', floor=5)
     ctx.rule('R08.7', 'advertised deformation names = accepted names', floor=29)
     ctx.rule('R08.8', 'bpauli.apply_deformation is the Hadamard on the index set', floor=2)
     ctx.trust('copy(MethodType(bound_method, obj)) re-resolves getattr(obj, name) at copy time (CPython method '
@@ -556,4 +556,6 @@ def run(ctx: Ctx) -> None:
     _r081(ctx)
     _r083(ctx)
     _r086(ctx)
+    from .c06 import cache_key_rule
+    cache_key_rule(ctx, 'R08.6')
     _r088(ctx)
